@@ -114,6 +114,15 @@ CloseAt(fee, payer) ==
   /\ tx' = [p \in P |-> BuildTx(p, fee, payer)]
   /\ UNCHANGED ch
 
+\* One closing_complete / closing_sig round of the RBF-coop flow (rbf_coop_transitions.go), coarse: the
+\* closer (LocalCloseStart) refuses to offer a fee that its settled balance - the commitment balance WITHOUT
+\* the commit fee and anchor credit, CloseChannelTerms.LocalCanPayFees - cannot pay; otherwise closer
+\* (LocalCloseStart, LocalOfferSent) and closee (RemoteCloseStart) build the close with the closer as payer.
+RbfRound(fee, closer) ==
+  IF Sat(ch.view[closer].our) < fee
+    THEN tx' = [p \in P |-> Refusal("cantpay", fee, closer)] /\ UNCHANGED ch
+    ELSE CloseAt(fee, closer)
+
 \* a payment of amt msat from party f to the other, fully locked in and settled (both views move)
 Pay(f, amt) ==
   /\ amt <= ch.view[f].our
@@ -224,11 +233,13 @@ Conservation == \A p \in Built : tx[p].res = "ok" =>
                   /\ Sum(tx[p]) + tx[p].fee <= Capacity
                   /\ (tx[p].has["A"] /\ tx[p].has["B"]) =>
                         Sum(tx[p]) + tx[p].fee = Gross("A") + Gross("B")
-\* a close is refused exactly when the payer cannot afford the fee or nothing would be paid out
+\* a close is refused exactly when the payer cannot afford the fee or nothing would be paid out; the RBF
+\* closer's own pre-check is stricter (it ignores the opener's commit fee / anchor credit): named deviation
 RefusalCases == \A p \in Built :
                   LET f == tx[p].fee  y == tx[p].payer IN
-                  /\ tx[p].res = "unaffordable" <=> Due(y, f, y) < 0
-                  /\ tx[p].res = "nooutputs" <=> (Due(y, f, y) >= 0 /\ \A q \in P : Due(q, f, y) < OwnDust(q))
+                  IF tx[p].res = "cantpay" THEN Sat(ch.view[y].our) < f
+                  ELSE /\ tx[p].res = "unaffordable" <=> Due(y, f, y) < 0
+                       /\ tx[p].res = "nooutputs" <=> (Due(y, f, y) >= 0 /\ \A q \in P : Due(q, f, y) < OwnDust(q))
 \* both sides build (and therefore sign) the same transaction
 SameTx == (Built = P /\ tx["A"].fee = tx["B"].fee /\ tx["A"].payer = tx["B"].payer) => tx["A"] = tx["B"]
 
